@@ -21,6 +21,7 @@ func init() {
 			"(D2) every return of Migrate whose error may be non-nil returns the original body and false; (D3) the step table has exactly LastSchemaVersion non-nil slots and slot i stamps schema_version i+1 on every path that returns nil; the table is indexed only after validateVersion succeeded. " +
 			"(D4) path independence, type part: a value a step stores into the document whose Go type is not what the YAML decoder would give back for it (e.g. timeutil.Duration, which is written to the file as a string) is never read by a later step through a typed accessor or type assertion — otherwise the outcome depends on whether the two steps run in one call (typed value in memory) or in two (decoded string). " +
 			"(D5) a step that walks a list of the document (clients, upstreams, filters) handles every element: inside such a loop a step returns only with an error; 'nothing to do for this element' continues with the next one. " +
+			"(D6) every element of the document gets an object of its own: no map or slice made outside a loop is put into the document inside the loop. " +
 			"Not decided: the value part of path independence, idempotence, preservation of unrelated settings and loader acceptance (value-level equalities over documents).",
 		RuleText: "Obligations are SSA instructions that can panic on attacker-shaped YAML; each is discharged by an enumerated rule or fails.",
 		Assumptions: []string{
@@ -135,6 +136,7 @@ func runC13(c *Ctx) {
 	a.table()
 	a.roundTripStable()
 	a.loopsProcessAll()
+	a.noSharedObjects()
 }
 
 func isFuncArray(t types.Type) bool {
@@ -539,7 +541,31 @@ func (a *c13) cellNonNil(cell *ssa.Alloc, ld *ssa.UnOp, depth int) (bool, string
 		case *ssa.ChangeType:
 			escapes[y] = true
 		case *ssa.MakeClosure:
-			return false, "local map captured by a closure"
+			// a function literal that only reads the variable (or changes the map through it) cannot make it nil:
+			// fine unless the literal assigns to the captured variable
+			lit, _ := y.Fn.(*ssa.Function)
+			assigns := lit == nil
+			if lit != nil {
+				for i, bnd := range y.Bindings {
+					if bnd != ssa.Value(cell) || i >= len(lit.FreeVars) {
+						continue
+					}
+					for _, u2 := range core.Users(lit.FreeVars[i]) {
+						switch z := u2.(type) {
+						case *ssa.UnOp, *ssa.DebugRef:
+						case *ssa.Store:
+							if z.Addr == ssa.Value(lit.FreeVars[i]) {
+								assigns = true
+							}
+						default:
+							assigns = true // handed on: not followed
+						}
+					}
+				}
+			}
+			if assigns {
+				return false, "local map captured by a closure that assigns to it"
+			}
 		}
 	}
 	var starts []core.Point
@@ -843,7 +869,7 @@ func (a *c13) migrateReturns() {
 		// from those edges' successors, can a `return nil` be reached?
 		var starts []core.Point
 		for e := range edges {
-			starts = append(starts, core.Point{Block: e.From.Succs[e.Succ], Idx: 0})
+			starts = append(starts, core.AfterEdge(e))
 		}
 		found, _, _ := core.Reach(core.Query{From: starts, Target: func(in ssa.Instruction) bool {
 			ret, ok := core.AsReturn(in)
@@ -995,21 +1021,7 @@ func (a *c13) table() {
 
 // mayBeNilErr: an error result that may be nil (conservatively true unless
 // it is provably a fresh error).
-func mayBeNilErr(v ssa.Value) bool {
-	v = core.ResolveLocalLoad(v)
-	switch x := v.(type) {
-	case *ssa.Const:
-		return x.IsNil()
-	case *ssa.Call:
-		k := core.CalleeKey(x.Common())
-		if k == "fmt.Errorf" || k == "errors.New" || k == "github.com/AdguardTeam/golibs/errors.Error.Error" {
-			return false
-		}
-	case *ssa.MakeInterface:
-		return false
-	}
-	return true
-}
+func mayBeNilErr(v ssa.Value) bool { return core.MayBeNil(v) }
 
 // c13Stable: the dynamic types the YAML decoder produces for untyped targets
 // (a value of such a type is the same in memory and after a write/read of
@@ -1351,4 +1363,65 @@ func (a *c13) loopsProcessAll() {
 	}
 	r.Info["element_loops_in_steps"] = n
 	r.Floor("C13-D5", "element-loops", n, 5)
+}
+
+// noSharedObjects: D6 — every element of the document gets an object of its
+// own: a map or slice made before a loop is not put into the document inside
+// the loop (all elements would then share one object, and what a later
+// iteration writes for its element shows up in all the others: a setting of one
+// client replaces another's).
+func (a *c13) noSharedObjects() {
+	p, r := a.P, a.R
+	n := 0
+	var bad []string
+	for _, fn := range a.pkgFns {
+		if !strings.Contains(core.FuncKey(fn), "migrateTo") {
+			continue
+		}
+		for _, b := range fn.Blocks {
+			if !core.InCycle(b) {
+				continue
+			}
+			for _, in := range b.Instrs {
+				var stored ssa.Value
+				switch x := in.(type) {
+				case *ssa.MapUpdate:
+					stored = x.Value
+				case *ssa.Store:
+					if _, isIdx := x.Addr.(*ssa.IndexAddr); isIdx {
+						stored = x.Val
+					}
+				}
+				if stored == nil {
+					continue
+				}
+				n++
+				for _, leaf := range core.FlattenPhi(stored) {
+					for {
+						switch y := leaf.(type) {
+						case *ssa.MakeInterface:
+							leaf = y.X
+							continue
+						case *ssa.ChangeType:
+							leaf = y.X
+							continue
+						}
+						break
+					}
+					mk, isMap := leaf.(*ssa.MakeMap)
+					if isMap && !core.InCycle(mk.Block()) {
+						bad = append(bad, fmt.Sprintf("%s: the map made at %s (outside the loop) is stored into the document on every iteration", p.InstrPos(in), p.InstrPos(mk)))
+					}
+					if ms, isSl := leaf.(*ssa.MakeSlice); isSl && !core.InCycle(ms.Block()) {
+						bad = append(bad, fmt.Sprintf("%s: the slice made at %s (outside the loop) is stored into the document on every iteration", p.InstrPos(in), p.InstrPos(ms)))
+					}
+				}
+			}
+		}
+	}
+	sort.Strings(bad)
+	r.Info["C13-D6_stores_in_loops_examined"] = n
+	r.Check(len(bad) == 0, "C13-D6", "every-element-gets-its-own-object", "-",
+		"no map or slice made outside a loop is put into the document inside it",
+		"one map/slice object is put into several elements of the document: the elements share it, and the value written for the last one replaces the others' (a setting the step does not concern is lost)", bad...)
 }
